@@ -5,6 +5,7 @@ go 1.20
 require (
 	github.com/anishathalye/porcupine v1.3.0
 	github.com/golang-jwt/jwt/v4 v4.0.0
+	github.com/nats-io/nats-server/v2 v2.10.4
 	github.com/nats-io/nats.go v1.31.0
 	github.com/simpleiot/simpleiot v0.0.0
 	modernc.org/sqlite v1.18.0
@@ -40,7 +41,6 @@ require (
 	github.com/miekg/dns v1.1.55 // indirect
 	github.com/minio/highwayhash v1.0.2 // indirect
 	github.com/nats-io/jwt/v2 v2.5.2 // indirect
-	github.com/nats-io/nats-server/v2 v2.10.4 // indirect
 	github.com/nats-io/nkeys v0.4.6 // indirect
 	github.com/nats-io/nuid v1.0.1 // indirect
 	github.com/oklog/run v1.1.0 // indirect
